@@ -273,6 +273,9 @@ func (h NativeKeyHashRecord[K]) Equal(thread *Thread, other value.Value) (bool, 
 	switch o := other.SafeAsReference().(type) {
 	case NativeKeyHashRecord[K]:
 		return h.EqualNative(thread, o)
+	case HashMap:
+		// a map is not a record (`=~` compares across the two)
+		return false, value.Undefined
 	case HashRecord:
 		return HashRecordEqual(thread, o, h)
 	}
